@@ -37,6 +37,7 @@ def run(ctx):
     gapsphase(ctx)
     publishes_all(ctx)
     contains(ctx)
+    pcomplete(ctx)
 
 
 def _callers(F, target):
@@ -492,6 +493,37 @@ def publishes_all(ctx):
                 ok = True
         R.require(ok, "merges-seqs", ip.where(), "an already known partial has the new chunk's seqs merged in (got.seqs.extend(partial.seqs))",
                   fail_msg="insert_partial no longer merges the incoming seqs into an existing partial: received chunks would be forgotten in memory while their rows are stored")
+
+
+# ------------------------------------------------------------------------------------------------ pcomplete
+def pcomplete(ctx):
+    """generate_sync leaves a partial out of partial_need (= advertises it as held) when PartialVersion::is_complete() says so;
+    so is_complete may only be true when there is no gap of seqs over the FULL range 0..=last_seq   (added after C02-c)"""
+    F = ctx.F
+    R = ctx.rule("C02.pcomplete", "K4", "PartialVersion::is_complete is decided by seqs.gaps(full_range()) on every path (a partial dropped from partial_need has no missing sequence)")
+    PV = "klukai_types::agent::PartialVersion"
+    b = F.get(PV + "::is_complete")
+    if not R.anchor(b, "is_complete", "fn PartialVersion::is_complete"):
+        return
+    gaps = [c for c in b.calls if c.name() == "gaps" and "RangeInclusiveSet" in c.f]
+    if not R.require(bool(gaps), "uses-gaps", b.where(), "is_complete walks seqs.gaps(..)",
+                     fail_msg="PartialVersion::is_complete no longer computes the gaps of the received seqs over the version's full range: a partial with missing sequences (e.g. only a tail range) could be reported complete and be advertised as held"):
+        return
+    g = gaps[0]
+    recv = cm.deep_arg_fields(b, op_place(g.args[0]), (g.bb, "T")) if op_place(g.args[0]) is not None else set()
+    R.require(any(x == "arg1.seqs" or x.startswith("arg1.seqs") for x in recv), "gaps-of-seqs", g.where(), "the gaps are those of self.seqs", fail_msg="gaps() is not taken over self.seqs (%s)" % sorted(recv)[:4])
+    org = cm.operand_origins(b, g, 1)
+    full = [o for o in org if o.kind == "call" and (o.call.name() == "full_range" or o.call.f.endswith("RangeInclusive::<Idx>::new"))]
+    R.require(bool(org) and len(full) == len([o for o in org if o.kind == "call"]) and bool(full), "over-full-range", g.where(), "the range walked is full_range() (0..=last_seq, see C03.apply / fix F3)",
+              fail_msg="is_complete walks gaps over %s, not over full_range()" % cm.origin_summary(org))
+    rets = [bb for bb in b.live_blocks() if b.term(bb)["t"] == "ret"]
+    R.require(bool(rets) and all(b.dominates(g.bb, r) for r in rets), "gaps-on-every-path", b.where(), "every return of is_complete passes through the gaps walk",
+              fail_msg="is_complete has a path to its return that bypasses the gaps walk")
+    # the verdict is 'no gap': count()==0 / next().is_none() / is_empty-like on the gaps iterator
+    ro = flow.origins(b, [0])
+    names = {o.call.name() for o in ro if o.kind == "call"}
+    R.require(bool(names) and names <= {"count", "next", "is_none", "is_some", "any", "all", "eq", "ne", "not"}, "verdict-from-gaps", b.where(), "the result is computed from the gaps iterator (%s)" % sorted(names),
+              fail_msg="is_complete's result derives from %s" % sorted(names))
 
 
 # ------------------------------------------------------------------------------------------------ contains
